@@ -191,6 +191,8 @@ def run(ctx, rep, model=True):
     for i in range(n):
         spec = chkgen.random_chk_spec(ctx.rng, nlev=[2, 1, 3, 2][i % 4], ng=[1, 2, 3][i % 3], aniso=(i % 2 == 0),
                                       integral_time=(i % 10 == 9))
+        if i % 6 == 2:
+            spec["near_one"] = True; rep.count("mass-fractions-summing-to-one-within-1e-5")
         gradp, reactions, floor = [(True, False, True), (True, True, True), (False, False, False), (False, True, True),
                                    (True, True, False)][i % 5]
         source = ["list", "refY", "refIR"][i % 3]
